@@ -28,6 +28,7 @@ type compFault struct {
 
 type algo struct {
 	name   string
+	yield  func(key string) // scheduler gate: user-supplied (de)compressors may be descheduled mid-operation
 	fault  compFault
 	counts map[string]int
 	insts  int
@@ -117,18 +118,23 @@ func fnv32(b []byte) uint32 {
 }
 
 type simDecompressor struct {
-	a      *algo
-	id     int
-	r      *bufio.Reader
-	run    uint64
-	b      byte
-	sum    uint32
-	done   bool
-	reset  bool
-	closed bool
+	a       *algo
+	id      int
+	r       *bufio.Reader
+	run     uint64
+	b       byte
+	sum     uint32
+	inUse   bool
+	yielded bool
+	done    bool
+	reset   bool
+	closed  bool
 }
 
 func (d *simDecompressor) Reset(r io.Reader) error {
+	if d.inUse {
+		d.a.violate(fmt.Sprintf("decompressor %s#%d handed out (Reset) while another call is still reading from it", d.a.name, d.id))
+	}
 	d.reset = true
 	d.closed = false
 	d.run, d.done = 0, false
@@ -146,6 +152,7 @@ func (d *simDecompressor) Reset(r io.Reader) error {
 		if errors.Is(err, io.EOF) {
 			// the library resets with an empty reader when recycling
 			d.done = true
+			d.inUse = false
 			return nil
 		}
 		return fmt.Errorf("sim %s: short header: %w", d.a.name, err)
@@ -153,6 +160,7 @@ func (d *simDecompressor) Reset(r io.Reader) error {
 	if m != magicOf(d.a.name) {
 		return fmt.Errorf("sim %s: bad magic %q", d.a.name, m[:])
 	}
+	d.inUse = true
 	return nil
 }
 
@@ -162,6 +170,10 @@ func (d *simDecompressor) Read(p []byte) (int, error) {
 	}
 	if d.a.tick("read") {
 		return 0, errors.New("sim: injected decompressor read failure")
+	}
+	if d.a.yield != nil && !d.yielded {
+		d.yielded = true
+		d.a.yield("algo/" + d.a.name + "/read")
 	}
 	n := 0
 	for n < len(p) {
@@ -218,6 +230,8 @@ func (d *simDecompressor) Read(p []byte) (int, error) {
 func (d *simDecompressor) Close() error {
 	d.reset = false
 	d.closed = true
+	d.inUse = false
+	d.yielded = false
 	return nil
 }
 
